@@ -8,11 +8,14 @@
            disconnected), what close() returned (99: the connection was dropped instead, and drop
            came back), transport released, some thread never came
            back, some reply was not the reply to the call that got it, fault 0 only: the
-           client's Connection.Close is the last frame it sent and the wire is whole frames) *)
+           client's Connection.Close is the last frame it sent and the wire is whole frames,
+           (close() was already in flight - its Connection.Close out, unanswered - when the failure
+           landed, what released a publisher parked on a full mailbox behind a stalled, throttled
+           transport: 0 no such publisher / 5 the server's close / 2 EventLoopDropped / 8 other)) *)
 From Amq Require Export Lib.Base Gen.Consts Model.Wire Model.Frames Model.OutBuf Model.Collector
      Model.Slots Model.Core.
 
-Definition case := (N * list (N * bool * N) * N * (N * bool) * N * bool * bool * bool * bool)%type.
+Definition case := (N * list (N * bool * N) * N * (N * bool) * N * bool * bool * bool * bool * (bool * N))%type.
 
 Definition code_of (o : outcome) : N :=
   match o with
@@ -41,19 +44,21 @@ Definition model_code (fault : N) : N :=
   | _ => let '(_, c1) := process c0 (FMethod 1 MIllegal, []) in code_of (final_result c1)
   end.
 
-Definition model_out (c : case) : N := let '(fault, _, _, _, _, _, _, _, _) := c in model_code fault.
+Definition model_out (c : case) : N := let '(fault, _, _, _, _, _, _, _, _, _) := c in model_code fault.
 Definition model_agrees (c : case) : bool :=
-  let '(fault, _, _, _, code, _, _, _, _) := c in (code =? 99) || (code =? model_code fault).
+  let '(fault, _, _, _, code, _, _, _, _, _) := c in (code =? 99) || (code =? model_code fault).
 
 (* the property on the observations: nobody hangs, every caller gets an error in bounded time,
    the consumer's queue ends, close() names the root cause, the transport is released - and
    (C04) no caller ever got somebody else's reply *)
 Definition oracle_ok (c : case) : bool :=
-  let '(fault, threads, nthreads, (terminal, disconnected), code, released, hang, misrouted, wire_ok) := c in
+  let '(fault, threads, nthreads, (terminal, disconnected), code, released, hang, misrouted, wire_ok, (close_first, parked_code)) := c in
   negb hang && (N.of_nat (length threads) =? nthreads) &&
   forallb (fun '(_, err, ms) => err && (ms <=? (if fault =? 6 then 4500 else 3000))) threads &&
   disconnected && released && negb misrouted &&
   ((code =? fault) || (code =? 99)) && wire_ok &&
+  (* a caller parked in a blocking send is released with the close's own reason *)
+  ((parked_code =? 0) || (parked_code =? 5)) &&
   (if fault =? 5 then terminal =? 6 else if fault =? 0 then terminal =? 5 else true).
 
 Fixpoint bad_idx {A} (f : A -> bool) (i : N) (l : list A) : list N :=
